@@ -842,6 +842,13 @@ func (g *Gen) ProposalCreate() txgen.Tx {
 		cfg = rapid.SampledFrom(ConfigUpdates).Draw(g.T, "cfg")
 	}
 	tags := []string{mtag}
+	if g.pct(g.Strange, "id-sep") {
+		// ids are 64 characters chosen by the sender: the store's own key separator is a legal character
+		b := []byte(id)
+		b[7], b[23] = '_', '_'
+		id = governance.ProposalID(b)
+		tags = append(tags, "id-with-separator")
+	}
 	if len(w.Props) > 0 && g.pct(g.Strange, "reuse-id") {
 		// ids are chosen by the sender: ask for one that exists already
 		id = w.Props[g.Uniform(len(w.Props), "reuse-which")].ID
